@@ -96,11 +96,11 @@ def check_consts_c(ctx, b, witness, is_cpp):
         if not is_cpp:
             expect(("FULLNAME",), t.full_name, "full name")
             expect(("FULLNAMEVER",), "%s.%d.%d" % (t.full_name, t.version.major, t.version.minor), "full name and version")
-        port_owner = t
-        if not t.has_parent_service:
-            expect(("HASPORT",), int(bool(t.has_fixed_port_id)), "has-fixed-port-ID flag")
-            if t.has_fixed_port_id:
-                expect(("PORT",), t.fixed_port_id, "fixed port-ID")
+        owner = getattr(b.h, "port_owner", {}).get(codec.key(t), t) if is_cpp else t     # C++: request/response carry their service's port-ID
+        if is_cpp or not t.has_parent_service:
+            expect(("HASPORT",), int(bool(owner.has_fixed_port_id)), "has-fixed-port-ID flag")
+            if owner.has_fixed_port_id:
+                expect(("PORT",), owner.fixed_port_id, "fixed port-ID")
         if isinstance(it, pydsdl.UnionType):
             expect(("OPTIONS",), len(it.fields), "union option count")
         if not is_cpp:
@@ -235,6 +235,11 @@ def run_set(ctx, item):
         if b.error:
             ctx.count("bases_failed[%s]" % b.name)
             ctx.extra.setdefault("base_failures", []).append(dict(set=idx, base=b.name, stage=b.error[0], detail=b.error[1][-500:]))
+            # a probe line that does not compile means the constant it reads is not exported (or has another name)
+            m = re.search(r'harness\.c(?:pp)?:\d+:\d+: error: ([^\n]*)\n[^\n]*printf\("(EXTENT|BUFSIZE|PORT|HASPORT|OPTIONS|CAP \w+|CONST \w+|FULLNAME\w*)', b.error[1])
+            if b.error[0] == "harness-build" and m:
+                ctx.refute(None, "%s: exported constant %s cannot be read from the generated code: %s" % (b.name, m.group(2), m.group(1)[:160]),
+                           dict(witness, base=b.name, detail=b.error[1][-800:]))
             continue
         ctx.count("bases_built")
         if b.lang == "py":
